@@ -179,22 +179,26 @@ Proof.
 Qed.
 
 Lemma main_orthogonal_pencils : forall F (Fo : FieldOps F) (Ff : IsField F) n D d (R W X : mat F) (Dg : vec F)
-                                    (B P : mat F) lam,
+                                    (P : mat F) lam,
   orthogonal D R ->
-  (B = npe_rhs n X \/ B = lpp_rhs n Dg X) ->
-  geig_answer D d (pencil_lhs n W X) B P lam ->
-  geig_answer D d (pencil_lhs n W (rotate D R X))
-                  (fun a b => conj_R D R B a b) (mmul D R P) lam /\
-  (forall a b, npe_rhs n (rotate D R X) a b = conj_R D R (npe_rhs n X) a b) /\
-  (forall a b, lpp_rhs n Dg (rotate D R X) a b = conj_R D R (lpp_rhs n Dg X) a b) /\
+  (geig_answer D d (pencil_lhs n W X) (npe_rhs n X) P lam ->
+   geig_answer D d (pencil_lhs n W (rotate D R X)) (npe_rhs n (rotate D R X)) (mmul D R P) lam) /\
+  (geig_answer D d (pencil_lhs n W X) (lpp_rhs n Dg X) P lam ->
+   geig_answer D d (pencil_lhs n W (rotate D R X)) (lpp_rhs n Dg (rotate D R X)) (mmul D R P) lam) /\
+  (geig_answer D d (pencil_lhs n W X) (lltsa_rhs n X) P lam ->
+   geig_answer D d (pencil_lhs n W (rotate D R X)) (lltsa_rhs n (rotate D R X)) (mmul D R P) lam) /\
   forall m i k, project D (mmul D R P) (rot_vec D R m) (rotate D R X) i k = project D P m X i k.
 Proof.
-  intros F Fo Ff n D d R W X Dg B P lam Ho _ Ha. split; [|split; [|split]].
-  - eapply geig_answer_rotate; [exact Ho| | |exact Ha].
+  intros F Fo Ff n D d R W X Dg P lam Ho. split; [|split; [|split]].
+  - intros Ha. eapply geig_answer_rotate; [exact Ho| | |exact Ha].
     + intros a b _ _. apply pencil_lhs_rotate.
-    + intros a b _ _. reflexivity.
-  - intros a b. apply npe_rhs_rotate.
-  - intros a b. apply lpp_rhs_rotate.
+    + intros a b _ _. apply npe_rhs_rotate.
+  - intros Ha. eapply geig_answer_rotate; [exact Ho| | |exact Ha].
+    + intros a b _ _. apply pencil_lhs_rotate.
+    + intros a b _ _. apply lpp_rhs_rotate.
+  - intros Ha. eapply geig_answer_rotate; [exact Ho| | |exact Ha].
+    + intros a b _ _. apply pencil_lhs_rotate.
+    + intros a b _ _. apply lltsa_rhs_rotate.
   - intros m i k. apply project_rotate. exact Ho.
 Qed.
 
